@@ -128,6 +128,23 @@ def r5_chunks(text, log):
     return text[:m.start()] + rep + text[cl + 1:]
 
 
+def r17_iter_skip(text, log):
+    """R17: `for X in Y.iter().skip(N) {BODY}` -> `let mut vfw_k: usize = N; while vfw_k < Y.len() { let X = &Y[vfw_k]; BODY vfw_k += 1; }`
+    (std: skip(N) of a slice iterator yields the elements from index N on, in order)"""
+    msk = mask(text)
+    m = re.search(r'for\s+(\w+)\s+in\s+(\w+)\.iter\(\)\.skip\((\d+)\)\s*\{', msk)
+    if not m:
+        return text
+    x, y, n = m.group(1), m.group(2), m.group(3)
+    op = m.end() - 1
+    cl = match_brace(msk, op)
+    body = text[op + 1:cl]
+    rep = ('let mut vfw_k: usize = %s;\n        while vfw_k < %s.len() /*@LOOP*/ {\n            let %s = &%s[vfw_k];%s    vfw_k += 1;\n        }'
+           % (n, y, x, y, body))
+    log.append(('R17', 'for %s in %s.iter().skip(%s) -> index loop' % (x, y, n)))
+    return text[:m.start()] + rep + text[cl + 1:]
+
+
 def r6_std_consts(text, log):
     """R6: std::u32::MAX -> u32::MAX etc."""
     pat = r'std::(u8|u16|u32|u64|i8|i16|i32|i64|usize)::(MAX|MIN)'
@@ -197,4 +214,5 @@ RULES = {
     'R6': r6_std_consts,
     'R10': r10_fold,
     'R13': r13_byteorder,
+    'R17': r17_iter_skip,
 }
